@@ -192,7 +192,11 @@ def canon(out):
             txt = bytes.fromhex(m.group(1)).decode("utf-8", "replace")
         except ValueError:
             return m.group(0)
-        return m.group(0) if re.match(r"^[0-9]{4}-[0-9]{2}-[0-9]{2}T", txt) else " TS <text that is not an RFC 3339 date>"
+        if not re.match(r"^[0-9]{4}-[0-9]{2}-[0-9]{2}T", txt):
+            return " TS <text that is not an RFC 3339 date>"
+        import vlib
+        c = vlib.canon_rfc3339_hex(m.group(1))         # compared by the instant it denotes: the number of fraction digits is free
+        return (" TS " + c.replace(" ", "_")) if c else m.group(0)
     return runner.default_canon(_TS.sub(repl, out) if " TS x" in out else out)
 
 
